@@ -170,6 +170,12 @@ def classify_loop(F, fn, an, header, body, bounded_types):
     return False, "loop at bb%d has no recognised ranking argument" % header
 
 
+CONSUMERS = {"fold", "try_fold", "find", "find_map", "position", "rposition", "rfind", "any", "all", "count", "last", "nth", "for_each", "try_for_each",
+             "max", "min", "max_by", "min_by", "max_by_key", "min_by_key", "sum", "product", "collect", "eq", "ne", "cmp", "partial_cmp", "lt", "le", "gt", "ge",
+             "is_sorted", "unzip", "partition", "reduce"}
+FLOOR_LOOPLIKE = 16     # 9 natural loops + 7 iterator-consumer calls counted on the pinned tree
+
+
 def _strip(an, x):
     vs = ["None", "Some"]
     base, _ = an.norm_var(x, vs)
@@ -211,8 +217,25 @@ def run(ctx, rep):
             ok, why = classify_loop(F, fn, an, h, body, bounded)
             span = an.blocks[h]["term"]["span"]
             rep.require(ok, "loop-ranking", "%s|loop" % fn["qual"], wh(span), why, "%s: %s" % (fn["qual"], why))
-    rep.floor("loop-ranking", "natural loops in scope", nloops, 9)
+    # iterator consumers are loops too (a `for` rewritten as fold / find / position ... is the same iteration)
+    nconsumers = 0
+    for fn in F.all_fns():
+        if not in_scope(fn):
+            continue
+        an = analyze_fn(F, fn)
+        for cs in an.calls():
+            dn = cs.declared_norm
+            if not (dn.startswith("iter::Iterator::") or dn.startswith("iter::DoubleEndedIterator::")) or dn.split("::")[-1] not in CONSUMERS:
+                continue
+            nconsumers += 1
+            ity = norm((cs.callee.get("generics") or [""])[0])
+            ok = ity.startswith(CORE_BOUNDED) or ity.split("<")[0] in bounded or \
+                any(("<" + b) in ity or ity.startswith(b) for b in CORE_BOUNDED) or any(b + "<" in ity or ity.endswith(b) for b in bounded)
+            rep.require(ok, "loop-ranking", "%s|%s" % (fn["qual"], dn.split("::")[-1]), cs.where(), "%s over a bounded iterator (%s)" % (dn.split("::")[-1], ity.split("<")[0]),
+                        "%s: %s consumes %s whose boundedness is not established" % (fn["qual"], dn, ity))
+    rep.floor("loop-ranking", "natural loops and iterator consumers in scope", nloops + nconsumers, FLOOR_LOOPLIKE)
     rep.info["loops"] = nloops
+    rep.info["iterator_consumers"] = nconsumers
     rep.info["bounded_iterators"] = sorted(bounded)
     rep.trusted_base += ["core's slice/range iterators and Iterator::find/position terminate on finite iterators",
                         "C02/C04: a successful parse consumes >= 1 byte of the buffer it is given and fails once fewer remain, so a strictly "
